@@ -665,6 +665,28 @@ func history(run, steps, conc int, seed int64) ([]map[string]any, error) {
 			}
 		}
 	}
+	// the agreement after the operator changed it (file rewritten, Agreement.Reload as on SIGHUP): a client being shown
+	// the agreement at login receives the CURRENT text
+	{
+		shown := func(name string) (string, bool) {
+			c := w.Dial("")
+			defer c.Close()
+			if err := c.Handshake(10 * time.Second); err != nil {
+				return "", false
+			}
+			c.Send(sim.TLogin, sim.Fld(sim.FUserLogin, sim.Obfuscate([]byte("guest"))), sim.Fld(sim.FUserPassword, nil), sim.Fld(sim.FVersion, sim.U16(190)))
+			t, err := c.WaitFor(func(t sim.Tx) bool { return t.Type == sim.TShowAgreement }, 5*time.Second)
+			d, _ := t.Get(sim.FData)
+			return string(d), err == nil
+		}
+		before, ok1 := shown("ag1")
+		newText := fmt.Sprintf("agreement version %d of run %d", seed%1000+2, run)
+		_ = os.WriteFile(filepath.Join(w.Config, "Agreement.txt"), []byte(newText), 0644)
+		rerr := w.Agree.Reload()
+		after, ok2 := shown("ag2")
+		evs = append(evs, map[string]any{"op": "agreement", "run": run, "reloaded": rerr == nil, "shownBefore": ok1, "beforeExact": before == "agreement",
+			"shownAfter": ok2, "afterExact": after == newText})
+	}
 	final := postsIn(disk)
 	evs = append(evs, map[string]any{"op": "concstart", "run": run, "text": startText, "final": final, "finalExact": bytes.Equal(disk, concatOcc(rend, final))})
 	for i, e := range cevs {
